@@ -49,13 +49,14 @@ unsigned char spawnbyte[2];   /* MODE 2: concurrency limit announced by each spa
 unsigned int cfg[2];          /* MODE 2: configured concurrency (control files) */
 int lock_fails;               /* MODE 2: another qmail-send holds lock/sendmutex */
 int read_result[2];           /* MODE 2: 1 byte read, 0 EOF, -1 error */
+int in_exitasap;              /* MODE 1: TERM received, a delivery still outstanding (shutdown drain) */
 
 void sym_inputs(void)
 {
 #ifdef REPLAY
 #include "replay_inputs.inc"
 #else
-  SYM_ARR(tape); SYM_ARR(clk); SYM_ARR(wpass); SYM_ARR(wclean); SYM_ARR(spawnbyte); SYM_ARR(cfg); SYM(lock_fails); SYM_ARR(read_result);
+  SYM_ARR(tape); SYM_ARR(clk); SYM_ARR(wpass); SYM_ARR(wclean); SYM_ARR(spawnbyte); SYM_ARR(cfg); SYM(lock_fails); SYM_ARR(read_result); SYM(in_exitasap);
 #endif
 }
 
@@ -256,10 +257,14 @@ int vf_select(int nfds, fd_set *rfds, fd_set *wfds, fd_set *efds, struct timeval
     long recent_ = recent;
     long due = recent_ + SLEEP_FOREVER;
     long wp = recent_ + wpass[nselect - 1], wc = recent_ + wclean[nselect - 1];
-    int pending = (tododir != 0);
-    if (wp < due) due = wp;
+    int pending = (tododir != 0) && !flagexitasap;
+    /* after TERM nothing new is started: the pass and todo machinery no longer count as
+     * work, and the trigger must not be watched (a pending trigger byte would make every
+     * select return at once while the daemon only waits for its last reports) */
+    if (!flagexitasap && wp < due) due = wp;
     if (wc < due) due = wc;
-    if (nexttodorun < due) due = nexttodorun;
+    if (!flagexitasap && nexttodorun < due) due = nexttodorun;
+    if (flagexitasap) CHECK(!sel_trigger, "C16: BUSY LOOP - the trigger is still watched while draining after TERM");
     CHECK(tv != 0 && tv->tv_usec == 0, "select always has a timeout");
     if (pending || due <= recent_) {
       CHECK(tv->tv_sec == 0, "C16: work pending or due: poll without sleeping");
@@ -269,6 +274,7 @@ int vf_select(int nfds, fd_set *rfds, fd_set *wfds, fd_set *efds, struct timeval
       CHECK(tv->tv_sec <= due - recent_ + SLEEP_FUZZ, "C16: never sleeps past the earliest due event (+SLEEP_FUZZ)");
       CHECK(tv->tv_sec <= SLEEP_FOREVER + SLEEP_FUZZ, "C16: never sleeps longer than SLEEP_FOREVER");
       WITNESS("sleeps_until_due");
+      if (flagexitasap) WITNESS("sleeps_while_draining");
     }
     FD_ZERO(rfds);
     if (sel_trigger && (draw() & 1)) FD_SET(cur_rfd, rfds);
@@ -286,7 +292,9 @@ void del_selprep(int *nfds, fd_set *rfds) {}
 void pass_selprep(datetime_sec *wakeup)
 {
 #if MODE == 1
-  datetime_sec w = recent + wpass[nselect < K ? nselect : K];
+  datetime_sec w;
+  if (flagexitasap) return;            /* contract of the real pass_selprep */
+  w = recent + wpass[nselect < K ? nselect : K];
   if (*wakeup > w) *wakeup = w;
 #endif
 }
@@ -299,7 +307,7 @@ void cleanup_selprep(datetime_sec *wakeup)
 }
 void comm_do(fd_set *w) {} void del_do(fd_set *r) {} void pass_do(void) {} void cleanup_do(void) {}
 void pqrun(void) {} void reread(void) {} void pqfinish(void) {}
-int del_canexit(void) { return 1; }
+int del_canexit(void) { return 0; }   /* a delivery is outstanding: TERM does not end the loop (shutdown drain) */
 /* qsutil.c */
 void log1(char *a) {} void qslog2(char *a, char *b) {} void log3(char *a, char *b, char *c) {}
 void logsa(stralloc *s) {} void logsafe(char *s) {} void nomem(void) {} void pausedir(char *d) {}
@@ -331,6 +339,10 @@ void vmain(void)
 #if MODE == 1
   for (i = 0; i < K + 4; ++i) ASSUME(clk[i] >= 0 && clk[i] <= 100000);
   for (i = 0; i < K + 1; ++i) ASSUME(wpass[i] >= -100000 && wpass[i] <= 200000 && wclean[i] >= -100000 && wclean[i] <= 200000);
+#endif
+#if MODE == 1
+  ASSUME(in_exitasap == 0 || in_exitasap == 1);
+  flagexitasap = in_exitasap;
 #endif
 #if MODE == 2
   ASSUME(lock_fails == 0 || lock_fails == 1);
